@@ -26,7 +26,7 @@ _, patch = sh('git -C %s diff' % wt)
 open(os.path.join(dst, 'patch.diff'), 'w').write(patch)
 # run checks
 detected, missed, details = [], [], {}
-subprocess.check_call(['git', '-C', '/repo', 'apply', os.path.join(dst, 'patch.diff')])
+subprocess.check_call(['git', '-C', os.environ.get('DV_REPO', '/repo'), 'apply', os.path.join(dst, 'patch.diff')])
 try:
     for c in checks:
         r = subprocess.run([V + '/check', c], stdout=subprocess.PIPE, stderr=subprocess.STDOUT, text=True)
@@ -36,7 +36,7 @@ try:
         else:
             missed.append(c)
 finally:
-    subprocess.check_call(['git', '-C', '/repo', 'checkout', '--', '.'])
+    subprocess.check_call(['git', '-C', os.environ.get('DV_REPO', '/repo'), 'checkout', '--', '.'])
 notes = open(os.path.join(out, 'NOTES.md')).read() if os.path.exists(os.path.join(out, 'NOTES.md')) else ''
 meta = {'id': wid, 'breaks_property': prop, 'needs_to_manifest': '(see NOTES.md)', 'what_i_ran': ran,
         'detected_by': detected, 'missed_by': missed, 'reports': details}
